@@ -58,7 +58,8 @@ def build(sh, sym):
     index_op = pipeline.IndexOp(body.args[0], [IndexType(), IndexType()], Region([ib]))
     stages = []
     for s in range(S):
-        w = WorkOp([index_op.results[1], index_op.results[0]], s)
+        # (the last stage also uses the value that happens to be the loop's lower bound, e.g. a shared constant 0 as an offset)
+        w = WorkOp([index_op.results[1], index_op.results[0]] + ([lbv] if s == S - 1 else []), s)
         stages.append(pipeline.StageOp([], [], s, Region([Block([w])])))
     pipe = pipeline.PipelineOp(Region([Block([index_op] + stages)]))
     body.add_op(pipe)
@@ -187,6 +188,8 @@ class UnrollPipeline_contract:
                       implies((ub - lb) % st == 0, x == ub + (gi - s) * st))
             gi += 1
         check("within a slot no stage appears twice", all(len([1 for (s2, _, _) in g if s2 == s]) <= 1 for g in pre + post for s in range(S)))
+        others = [o.body.block.ops[0] for o in before + after + list(v["stages"]) if isinstance(o, pipeline.StageOp) and len(o.body.block.ops[0].operands) == 3]
+        check("only the loop itself gets the shifted lower bound: other users of that value keep it", len(others) >= 1 and all(w.operands[2] is v["lbv"] for w in others))
 
     def canary(sh, a, ret):
         check("canary: nothing is inserted before the loop", not any(e[0] == "insert_op" and e[2].kind == "before" and e[2].anchor is a[0]["loop"] for e in ret))
@@ -225,6 +228,7 @@ def build_for(sh, sym):
     ops = [x]
     syncs = []
     workers = []
+    orig = {}
     for k in range(sh["stages"]):
         if k % 2 == 0:
             w = memref.CopyOp(bufs[k % 4], bufs[(k + 1) % 4])
@@ -232,6 +236,12 @@ def build_for(sh, sym):
             w = linalg.GenericOp([bufs[k % 4]], [bufs[(k + 1) % 4]])
         workers.append(w)
         ops.append(w)
+        orig[id(w)] = list(w.operands)
+        if sh.get("two_loads") and k == 0:
+            # a second load in the same stage: ins and outs of the stage interleave in visit order (A, ta, B, tb)
+            w2 = memref.CopyOp(bufs[2], bufs[3])
+            ops.append(w2)
+            orig[id(w2)] = list(w2.operands)
         if not (sh["tail"] == "no_final_sync" and k == sh["stages"] - 1):
             s = snax.ClusterSyncOp()
             syncs.append(s)
@@ -240,12 +250,13 @@ def build_for(sh, sym):
     for o in ops + [y]:
         body.add_op(o)
     loop = scf.ForOp(lb, ub, st, [], body)
-    return dict(loop=loop, body=body, workers=workers, syncs=syncs, x=x, lb=lbv, ub=ubv, st=stv)
+    return dict(loop=loop, body=body, workers=workers, syncs=syncs, x=x, lb=lbv, ub=ubv, st=stv, orig=orig)
 
 
 CONSTRUCT_SHAPES = ([dict(stages=S, lb="const", ub=u, step="const", tail="ok") for S in (2, 3, 4) for u in ("const", "dyn")]
                     + [dict(stages=3, lb=l, ub="const", step=s, tail="ok") for (l, s) in (("dyn", "const"), ("const", "dyn"))]
-                    + [dict(stages=1, lb="const", ub="const", step="const", tail="ok"), dict(stages=3, lb="const", ub="const", step="const", tail="no_final_sync")])
+                    + [dict(stages=1, lb="const", ub="const", step="const", tail="ok"), dict(stages=3, lb="const", ub="const", step="const", tail="no_final_sync"),
+                       dict(stages=2, lb="const", ub="const", step="const", tail="ok", two_loads=True), dict(stages=3, lb="const", ub="dyn", step="const", tail="ok", two_loads=True)])
 
 
 @contract
@@ -291,6 +302,24 @@ class ConstructPipeline_contract:
         check("the index op wraps the index computations of the body and takes the loop index", inner[0].operands[0] is v["body"].args[0]
               and any(o is v["x"] for o in inner[0].body.block.ops))
         check("stage k holds the k-th worker op", all(any(o is v["workers"][k] for o in inner[k + 1].body.block.ops) for k in range(S)))
+        # stage operands (ins, then outs) pair with the stage block's arguments BY POSITION; every op moved into the stage must
+        # reach each of its original buffers through the argument paired with exactly that buffer
+        ok_pairing = True
+        for k in range(S):
+            st_op = inner[k + 1]
+            blk_args = list(st_op.body.block.args)
+            if len(blk_args) != len(st_op.operands):
+                ok_pairing = False
+                continue
+            for o in st_op.body.block.ops:
+                want = v["orig"].get(id(o))
+                if want is None:
+                    continue
+                for j in range(len(want)):
+                    pos = [p for p in range(len(blk_args)) if blk_args[p] is o.operands[j]]
+                    if len(pos) != 1 or st_op.operands[pos[0]] is not want[j]:
+                        ok_pairing = False
+        check("every op of a stage reaches each of its buffers through the stage argument paired (by position) with that buffer", ok_pairing)
         check("the barriers of the original body are erased (the unrolled form brings its own)",
               all(any(e[0] == "erase_op" and e[1] is s for e in ret) for s in v["syncs"]))
 
